@@ -156,6 +156,7 @@ static bool decode_utf8(const vector<UINT8> &in_data, deque<int> &out_data)
 {
    size_t idx = 0;
    int    cnt;
+   int    min_ch; // the smallest code point that needs a sequence of this length
 
    out_data.clear();
 
@@ -181,28 +182,33 @@ static bool decode_utf8(const vector<UINT8> &in_data, deque<int> &out_data)
       }
       else if ((ch & 0xE0) == 0xC0)    // 2-byte sequence
       {
-         ch &= 0x1F;
-         cnt = 1;
+         ch    &= 0x1F;
+         cnt    = 1;
+         min_ch = 0x80;
       }
       else if ((ch & 0xF0) == 0xE0)    // 3-byte sequence
       {
-         ch &= 0x0F;
-         cnt = 2;
+         ch    &= 0x0F;
+         cnt    = 2;
+         min_ch = 0x800;
       }
       else if ((ch & 0xF8) == 0xF0)    // 4-byte sequence
       {
-         ch &= 0x07;
-         cnt = 3;
+         ch    &= 0x07;
+         cnt    = 3;
+         min_ch = 0x10000;
       }
       else if ((ch & 0xFC) == 0xF8)    // 5-byte sequence
       {
-         ch &= 0x03;
-         cnt = 4;
+         ch    &= 0x03;
+         cnt    = 4;
+         min_ch = 0x200000;
       }
       else if ((ch & 0xFE) == 0xFC)    // 6-byte sequence
       {
-         ch &= 0x01;
-         cnt = 5;
+         ch    &= 0x01;
+         cnt    = 5;
+         min_ch = 0x4000000;
       }
       else
       {
@@ -226,6 +232,12 @@ static bool decode_utf8(const vector<UINT8> &in_data, deque<int> &out_data)
       if (cnt >= 0)
       {
          // short UTF-8 sequence
+         return(false);
+      }
+
+      if (ch < min_ch)
+      {
+         // overlong form: it would not be written back with the same bytes
          return(false);
       }
       out_data.push_back(ch);
